@@ -116,7 +116,9 @@ def lcc(x: np.ndarray, y: np.ndarray, k, eps: float = 1e-15):
 def wlcc(x: np.ndarray, y: np.ndarray, k, eps: float = 1e-15, mask=None, source_mask=None, target_mask=None):
     """Weighted local normalised cross correlation as described by the wlcc_loss docstring.
 
-    Returns (loss_before_mask_weighting, B, C, nw, mask_used_for_aggregation or None)."""
+    Returns (loss_before_mask_weighting, B, C, nw, mask_used_for_aggregation or None, undefined) where `undefined`
+    marks windows containing a contributing sample whose weighted local mean has no support (sum of weights 0:
+    the mean is 0/epsilon there, the centred value is not defined and nothing can be asserted)."""
     x = np.asarray(x, np.float64)
     y = np.asarray(y, np.float64)
     f = (lambda m: None if m is None else np.broadcast_to(np.asarray(m, np.float64), x.shape))
@@ -132,15 +134,21 @@ def wlcc(x: np.ndarray, y: np.ndarray, k, eps: float = 1e-15, mask=None, source_
 
     xs = x - wmean(x, source_mask)
     ys = y - wmean(y, target_mask)
+    nosup = np.zeros(x.shape, bool)
+    for w in (source_mask, target_mask):
+        if w is not None:
+            nosup |= box_sum(w, k) == 0
     if mask is None and source_mask is not None and target_mask is not None:
         mask = source_mask * target_mask
     if mask is not None:
         xs = xs * mask
         ys = ys * mask
+        nosup &= mask != 0
+    undefined = box_sum(nosup.astype(np.float64), k) > 0
     A = box_sum(xs * ys, k)
     B = box_sum(xs * xs, k)
     C = box_sum(ys * ys, k)
-    return 1.0 - A * A / (B * C + eps), B, C, nw, mask
+    return 1.0 - A * A / (B * C + eps), B, C, nw, mask, undefined
 
 
 # ---------------------------------------------------------------------------------------
